@@ -1,0 +1,63 @@
+// Verification hooks (feature `verif-hooks`): build a `Node` around a harness-owned `Network`
+// and call its crate-private handlers. Child module of `node`.
+
+use super::*;
+use libp2p::kad::{Record, RecordKey};
+
+/// A real `Node` whose event loop the harness plays.
+#[derive(Clone)]
+pub struct VerifNode(Node);
+
+impl VerifNode {
+    pub fn new(network: Network, evm_network: EvmNetwork, reward_address: RewardsAddress) -> Self {
+        let inner = NodeInner {
+            events_channel: NodeEventsChannel::default(),
+            initial_peers: vec![],
+            network,
+            #[cfg(feature = "open-metrics")]
+            metrics_recorder: None,
+            reward_address,
+            evm_network,
+        };
+        VerifNode(Node {
+            inner: Arc::new(inner),
+        })
+    }
+    pub fn network(&self) -> &Network {
+        self.0.network()
+    }
+    /// `Node::validate_and_store_record`; the error is rendered with `{:?}`.
+    pub async fn validate_and_store_record(&self, record: Record) -> std::result::Result<(), String> {
+        self.0
+            .validate_and_store_record(record)
+            .await
+            .map_err(|e| format!("{e:?}"))
+    }
+    /// `Node::store_replicated_in_record`; the error is rendered with `{:?}`.
+    pub async fn store_replicated_in_record(&self, record: Record) -> std::result::Result<(), String> {
+        self.0
+            .store_replicated_in_record(record)
+            .await
+            .map_err(|e| format!("{e:?}"))
+    }
+    pub async fn handle_query(network: &Network, query: Query, payment_address: RewardsAddress) -> Response {
+        Node::handle_query(network, query, payment_address).await
+    }
+    pub fn handle_network_event(&self, event: NetworkEvent) {
+        let peers_connected = Arc::new(AtomicUsize::new(0));
+        self.0.handle_network_event(event, &peers_connected)
+    }
+    pub fn fetch_replication_keys_without_wait(&self, keys: Vec<(PeerId, RecordKey)>) -> std::result::Result<(), String> {
+        self.0
+            .fetch_replication_keys_without_wait(keys)
+            .map_err(|e| format!("{e:?}"))
+    }
+    pub fn calculate_get_closest_peers(
+        peer_addrs: Vec<(PeerId, Vec<Multiaddr>)>,
+        target: NetworkAddress,
+        num_of_peers: Option<usize>,
+        range: Option<[u8; 32]>,
+    ) -> Vec<(NetworkAddress, Vec<Multiaddr>)> {
+        Node::calculate_get_closest_peers(peer_addrs, target, num_of_peers, range)
+    }
+}
